@@ -27,6 +27,9 @@ Accept(e, c) ==
     [] e.op = "cmp_layout" ->
          /\ PropCmpResults(c, "partial_cmp", e.a, e.b, e.prets)
          /\ HasTrait(c, "Ord") => PropCmpResults(c, "cmp", e.a, e.b, e.crets)
+    [] e.op = "clone" -> PropClone(c, e.a, e.calls, e.res)
+    [] e.op = "clone_from" -> PropCloneFrom(c, e.a, e.b, e.res)
+    [] e.op = "fmt" -> PropDebug(c, e)
     [] OTHER -> FALSE
 
 TraceInit == l = 1 /\ bad = <<>> /\ learned = <<>>
